@@ -11,7 +11,7 @@ class C40(vlib.Spec):
     props_vo = "theories/Props/C40.vo"
     theorems = ["C40_raft_term_monotone", "C40_raft_vote_once_per_term", "C40_raft_commit_monotone",
                 "C40_raft_election_safety", "C40_raft_leader_append_only", "C40_raft_sms_partial", "C40_raft_log_wf",
-                "C40_raft_committed_prefix_stable"]
+                "C40_raft_committed_prefix_stable", "C40_raft_leader_commit_rule"]
     crate, group, binary = "h_raft", "hydro", "h_raft"
     imports = "From HV Require Import Proto.RaftNet."
     level = "other"
@@ -50,7 +50,7 @@ class C40(vlib.Spec):
         return cases
 
     def n_cases(self, tier):
-        return 420 if tier == "quick" else 4200
+        return 720 if tier == "quick" else 6000
 
     def to_coq(self, case, res):
         return proto.raft_term(case, res)
